@@ -197,9 +197,9 @@ theorem iter_of_last (s : Scheme) (l : Nat) (hl : 0 < l) (M npi : List Nat)
     simp only [Padder.loopYields, Padder.blockAt, blocklen_mk]
     rw [List.map_map, ← range_map_eq_readBlocks]; rfl
   unfold iter Padder.iterblocks
-  simp only [blocklen_mk, hlc, hba, Option.getD_none, Option.map_none]
+  simp only [hlc, hba, Option.getD_none, Option.map_none]
   obtain ⟨st', hst⟩ := h { bitcnt := ({} : PadState).bitcnt + (M.length - 1) / l * (8 * l) }
-  simp only [hst, Bool.false_eq_true, if_false, Nat.lt_irrefl, gt_iff_lt, Bool.not_true, false_and, if_true]
+  simp only [hst, Padder.finishTail, blocklen_mk, Bool.false_eq_true, if_false, Nat.lt_irrefl, gt_iff_lt, Bool.not_true, false_and, if_true]
   by_cases hd : 0 < (List.drop l npi).length
   · simp only [hd, if_true, List.map_append, hr]; simp
   · simp only [hd, if_false, List.map_append, hr]; simp
